@@ -31,3 +31,7 @@ Definition store_spec_run (ops : list op) : list ans := arun ast_init ops.
 
 From ZV Require Import MemStore.
 Definition mem_run_run (ops : list mop) : list ans := mrun mst_init ops.
+
+(* supporting exploration of the concurrency clause: a view handed out for identifier X while a writer commits and
+   rolls back shows the content as of X; in the model a view is a value, so the prediction is [true] *)
+Definition concurrent_views_run (i : Z) : bool := true.
